@@ -509,7 +509,9 @@ func StringProgs() []Prog {
 		one("StringN(1,2,2)", "str rej wide", func() *rapid.Generator[string] { return rapid.StringN(1, 2, 2) }, strContract(1, 2, 2, nil)),
 		one("StringOf(RuneFrom(ab))", "str", func() *rapid.Generator[string] { return rapid.StringOf(rapid.RuneFrom([]rune{'a', 'b'})) }, strContract(-1, -1, -1, ab)),
 		one("StringOfN(RuneFrom(世),1,-1,2)", "str rej", func() *rapid.Generator[string] { return rapid.StringOfN(rapid.RuneFrom([]rune{'世'}), 1, -1, 2) },
-			func(s string) string { return "contract unsatisfiable (3-byte rune, maxLen 2, minRunes 1): must be rejected, got a value" }),
+			func(s string) string {
+				return "contract unsatisfiable (3-byte rune, maxLen 2, minRunes 1): must be rejected, got a value"
+			}),
 		one("StringOfN(RuneFrom(a世),-1,2,3)", "str rej", func() *rapid.Generator[string] { return rapid.StringOfN(rapid.RuneFrom([]rune{'a', '世'}), -1, 2, 3) },
 			strContract(-1, 2, 3, func(r rune) bool { return r == 'a' || r == '世' })),
 		one("StringOfN(RuneFrom(é),2,3,5)", "str rej", func() *rapid.Generator[string] { return rapid.StringOfN(rapid.RuneFrom([]rune{'é'}), 2, 3, 5) },
